@@ -251,6 +251,7 @@ def explore_ic10(prog, cap, b: Bounds, *, shadow=False, calls=False, push_pop=Fa
     confirmed = []
     seen = set()
     stats = dict(paths=0, bound_paths=0, aborted=0, spurious=0, reads_checked=0, calls=0, returns=0, max_depth=0, steps=0)
+    called_all: set = set()
     while ctx.work and stats["paths"] < b.paths:
         prefix = ctx.work.pop()
         ctx.begin_run(prefix)
@@ -262,6 +263,7 @@ def explore_ic10(prog, cap, b: Bounds, *, shadow=False, calls=False, push_pop=Fa
             m.regions, m.entries = regs, set(fe)
             st = m.run(max_steps=b.steps, max_effects=b.effects)
             stats["steps"] += m.steps
+            called_all.update(m.called)
             if "bound" in st:
                 stats["bound_paths"] += 1
             evs = list(m.events) + (mon.events if mon else [])
@@ -307,6 +309,8 @@ def explore_ic10(prog, cap, b: Bounds, *, shadow=False, calls=False, push_pop=Fa
     stats["solver"] = ctx.stats.as_dict()
     stats["inconclusive"] = ctx.inconclusive
     stats["truncated"] = bool(ctx.work)
+    stats["called_entries"] = sorted(called_all)
+    stats["function_entries"] = {str(k): v for k, v in fe.items()}
     return confirmed, stats
 
 
